@@ -430,6 +430,58 @@ def counters (cfg : Cfg) : St → List Event → List (Nat × Nat)
 
 def traces (s : St) : List (List Ev) := (List.range s.nsubs).map fun i => (s.subs i).trace
 
+/-! ### a re-entrant source (depth one): things happen *inside* `source.Subscribe`, i.e. inside region R3
+    of the subscriber that creates the generation, after the synchronous prefix and before the call
+    returns. This is the one place where the harness can interleave other events into a `Subscribe`
+    deterministically (the probe runs them itself), and it is where the asynchronous forms of the
+    findings live. `subscribeK cfg id = subscribe cfg` (by `rfl`). -/
+
+def srcSubscribeK (cfg : Cfg) (k : St → St) (g : Nat) (s : St) : St :=
+  upAddTeardown g (k (playPre cfg g (cfg.pre s.total) (s.modGen g fun x => { x with upSub := true })))
+
+def r3K (cfg : Cfg) (k : St → St) (i g : Nat) (s : St) : St :=
+  r3tail cfg.fixed cfg.flags i g (srcSubscribeK cfg k g { s with flagE := false, flagC := false })
+
+def subscribeK (cfg : Cfg) (k : St → St) (s : St) : St :=
+  if needsNew s then
+    r3K cfg k s.nsubs s.ngens (subjSubscribe cfg s.ngens s.nsubs (r1 cfg (newSub s)))
+  else
+    addTeardown cfg.flags s.nsubs (s.subject.getD 0) (subjSubscribe cfg (s.subject.getD 0) s.nsubs (r1 cfg (newSub s)))
+
+theorem subscribeK_id (cfg : Cfg) (s : St) : subscribeK cfg id s = subscribe cfg s := rfl
+
+/-- an event with possibly nested plain events -/
+inductive NEvent
+  | plain (e : Event)
+  /-- a new subscriber arrives; if it creates a generation, `inner` happens inside the source's
+      `Subscribe` (skipped otherwise: the source is not subscribed) -/
+  | subNested (inner : List Event)
+deriving Repr, Inhabited
+
+/-- inside `Subscribe` of subscriber `self` nobody holds `self`'s subscription yet: `unsub self` is void -/
+def stepInner (cfg : Cfg) (self : Nat) (s : St) (e : Event) : St :=
+  match e with
+  | .unsub i => if i = self then s else step cfg s e
+  | _ => step cfg s e
+
+def nstep (cfg : Cfg) (s : St) : NEvent → St
+  | .plain e => step cfg s e
+  | .subNested inner => subscribeK cfg (fun u => inner.foldl (stepInner cfg s.nsubs) u) s
+
+def nrun (cfg : Cfg) (evs : List NEvent) : St := evs.foldl (nstep cfg) {}
+
+def ncounters (cfg : Cfg) : St → List NEvent → List (Nat × Nat)
+  | _, [] => []
+  | s, e :: es => let s' := nstep cfg s e; (s'.live, s'.total) :: ncounters cfg s' es
+
+/-- runs of plain events are the runs the theorems are about -/
+theorem nrun_plain (cfg : Cfg) (evs : List Event) : nrun cfg (evs.map NEvent.plain) = run cfg evs := by
+  unfold nrun run
+  generalize ({} : St) = s
+  induction evs generalizing s with
+  | nil => rfl
+  | cons e es ih => exact ih (step cfg s e)
+
 /-- downstream subscribers whose `subscriberImpl` is still open -/
 def openSubs (s : St) : List Nat := (List.range s.nsubs).filter fun i => (s.subs i).status = 0
 
